@@ -863,4 +863,32 @@ def rule_n(ctx: Ctx) -> None:
     ctx.explain('C14.n: reaching definitions in the is_derived siblings - a `derivation = None` definition must not reach a recursive is_derived(…, derivation) on the base type.')
 
 
-RULES = [rule_a, rule_b, rule_c, rule_d, rule_e, rule_f, rule_g, rule_h, rule_i, rule_j, rule_k, rule_l, rule_m, rule_n]
+def rule_o(ctx: Ctx) -> None:
+    """A restriction that prohibits an attribute its base declares, and keeps a wildcard admitting the name, must not accept for that attribute what the base
+    rejects: the attribute group hands a prohibited attribute to the wildcard only when the base does not declare it (otherwise the declaration - whose type
+    the parser checked to be a restriction of the base's - keeps validating the value)."""
+    rule = 'C14.o'
+    from .c03 import AG, _wildcard_alias
+    n = 0
+    for meth in ('raw_decode', 'raw_encode'):
+        f = ctx.idx.cls(AG).methods[meth]
+        ctx.analysed(f.qualname)
+        g = cfg_of(ctx, f)
+        binds = [x for x in g.nodes if x.kind == 'stmt' and isinstance(x.ast, ast.Assign) and any(text(t) == 'xsd_attribute' for t in x.ast.targets)
+                 and (text(x.ast.value) == 'self._attribute_group[None]' or _wildcard_alias(f, x.ast.value))]
+        for b in binds:
+            gs = guards(ctx, f, b)
+            if not any(("use == 'prohibited'" in t and lab == 'T') or ("use != 'prohibited'" in t and lab == 'F') for t, lab in gs):
+                continue
+            n += 1
+            ok = any('base_attributes' in t and ((lab == 'T' and 'not in self.base_attributes' in t) or (lab == 'F' and 'name in self.base_attributes' in t and 'not in' not in t))
+                     for t, lab in gs)
+            ctx.ob(rule, f'XsdAttributeGroup.{meth}: a prohibited attribute goes to the wildcard only when the base type does not declare it', f.loc(b.ast), ok,
+                   '' if ok else 'the wildcard takes over for every prohibited attribute it admits: Base(a: xs:int, anyAttribute lax), Derived = restriction(a prohibited, anyAttribute lax) '
+                   'accepts <d a="abc"/> although <b a="abc"/> is invalid - the restriction widens', key=f'{meth}|prohibited-wildcard-base')
+    ctx.floor(rule, 'wildcard bindings on the prohibited branch', n, 2)
+    ctx.explain('C14.o: the rebinding of the attribute validator to the wildcard on the prohibited branch of XsdAttributeGroup.raw_decode / raw_encode is control dependent on '
+                '`name not in self.base_attributes` (or no base).')
+
+
+RULES = [rule_a, rule_b, rule_c, rule_d, rule_e, rule_f, rule_g, rule_h, rule_i, rule_j, rule_k, rule_l, rule_m, rule_n, rule_o]
